@@ -309,7 +309,7 @@ class SelFromPlot:
 
         elif event.button == 2 and self.shift_is_held:
             if self.sel_freq and self.freq_ind:
-                i = np.argmin(np.abs(self.sel_freq - event.xdata))
+                i = int(np.argmin(np.abs(np.asarray(self.sel_freq) - event.xdata)))
                 self.sel_freq.pop(i)
                 self.freq_ind.pop(i)
                 self.plot_svPSD()
@@ -339,7 +339,7 @@ class SelFromPlot:
 
         elif event.button == 2 and self.shift_is_held:
             if self.sel_freq and self.pole_ind:
-                i = np.argmin(np.abs(self.sel_freq - event.xdata))
+                i = int(np.argmin(np.abs(np.asarray(self.sel_freq) - event.xdata)))
                 self.sel_freq.pop(i)
                 self.pole_ind.pop(i)
                 self.plot_stab(plot)
